@@ -277,6 +277,30 @@ func initTimeStubs() {
 		}
 		return ret(st)
 	}
+	resetFn := func(e *Exec, st *State, fn *Func, args []Value, site string) []Outcome {
+		p := args[0].(Ptr)
+		if p.IsNil() {
+			return e.panicOut(st, e.runtimeError("invalid memory address or nil pointer dereference"), "Reset on nil ticker/timer", site)
+		}
+		tv := e.load(st, p).(*Struct)
+		var ch ChanRef
+		for _, f := range tv.F {
+			if c, ok := f.(ChanRef); ok {
+				ch = c
+			}
+		}
+		if e.conc != nil && ch.Obj != 0 {
+			ev := e.conc.emit(st, "arm", fmt.Sprintf("ch:%d", ch.Obj), site)
+			ev.Val = args[1].(*Term)
+		}
+		e.ghostLog(st, "time.reset", &Struct{[]Value{BVConst(uint64(ch.Obj), 64), args[1]}})
+		if fn.Fn.Signature.Results().Len() == 1 {
+			return ret(st, e.fresh("wasactive", BoolSort))
+		}
+		return ret(st)
+	}
+	stubTable["(*time.Timer).Reset"] = resetFn
+	stubTable["(*time.Ticker).Reset"] = resetFn
 	stubTable["(*time.Ticker).Stop"] = stopFn
 	stubTable["(*time.Timer).Stop"] = stopFn
 }
